@@ -43,6 +43,18 @@ CLAIMED = {
     text='Kernel-checked Lean 4 theorems (C15_line, C15_line_rechunk, C15_lp, C15_lp_incomplete, C15_prefix_roundtrip, C15_lp_frame_guard) over an executable model of line.unframe and length_prefix.unframe: for every item list, every chunking (empty chunks, cuts anywhere), every prefix size >= 1 and both byte orders the un-framer returns exactly the items; the model is tied to /repo on every run by a differential check that drives the real operators chunk by chunk and compares per-chunk outputs with the compiled model.',
     design='§7 C15', technique='Lean 4 proof by induction over the chunk list (split-over-append lemma) + differential correspondence check',
     note='Trusted: Lean kernel, axioms propext/Classical.choice/Quot.sound, hand-written model (tested against the code each run), CPython str.split/bytes/BytesIO and RxPY plumbing are modelled not verified.'),
+ 'C18': dict(
+    text='Kernel-checked Lean 4 theorems over a model of the csv dumper and parser (escape of quote/escape characters, quoting, split on the separator, merge_escape_parts / is_closing_quote, unquote, int printing and parsing): C18_unescape (unescape . escape = id for every string), C18_str_field (a dumped string field alone on a line is parsed back for every string and separator), C18_int, C18_bool. The full multi-column row round trip with separators inside quoted fields is decided by the correspondence check (dumped lines and parsed rows of the real code vs the model) and by the round-trip oracle on the real code; floats are carried as tokens (contract float(str(x)) == x).',
+    design='§7 C18', technique='Lean 4 proof (string rewriting lemmas by induction) + differential correspondence + real round-trip oracle',
+    note='Trusted: Lean kernel, propext/Classical.choice/Quot.sound; CPython str.split/replace/join/int/float are modelled not verified; the multi-column theorem is partial (single field).'),
+ 'C19': dict(
+    text='Kernel-checked Lean 4 theorems composing the proved parts: C19_roundtrip (objects -> serialised lines -> utf-8 bytes -> any chunking -> decode -> unframe gives the lines back, for every object list incl. empty and every chunking), C19_empty, C19_roundtrip_compressed (through any codec meeting the C16 contract, any re-chunking of the compressed stream). orjson/json loads(dumps(o)) == o is a library contract; the model reads the real file bytes with the real 64 KiB chunking each run and is compared with the real loader; the round trip is judged on the real code (path, open_obj, file objects incl. short reads).',
+    design='§7 C19', technique='Lean 4 proof (composition of C15, C16, C17 theorems) + differential correspondence on real file bytes + real round-trip oracle',
+    note='Trusted: Lean kernel, propext/Classical.choice/Quot.sound; JSON serialiser and compression libraries by contract.'),
+ 'C20': dict(
+    text='Kernel-checked Lean 4 theorems: C20_batch (the composed scan|filter|map operator batch(n) emits exactly chunksOf n of its input, for every n >= 1 and every input), C20_chunks_spec (chunks concatenate to the input, are non-empty, at most n long, all but the last exactly n), C20_rows and C20_file (for every row list, dump batch size, row-group size and load batch size the file row groups hold the source rows once each in order and the loader returns them; with row_group_size None the row groups are the batches). pyarrow writer/reader are a library contract; the model is tied to /repo by comparing row ids, row-group sizes and loaded rows of real files with the model on every run.',
+    design='§7 C20', technique='Lean 4 proof (operator simulation + strong induction on chunking) + differential correspondence on real parquet files + real round-trip oracle',
+    note='Trusted: Lean kernel, propext/Classical.choice/Quot.sound; pyarrow ParquetWriter/ParquetFile/pa.array behaviour by contract (tested, incl. NaN/None/nested values).'),
 }
 PENDING_REASON = 'check not built yet in this round (framework under construction; see DESIGN.md §7/§10)'
 
